@@ -7,6 +7,7 @@ they index is `Healthy()` of the host set, characterised by C15's `usable_correc
 import SamVerif.Props.C15
 import SamVerif.Gen.Lb
 import SamVerif.Gen.Relay
+import SamVerif.Proofs.TcpConn
 namespace SamVerif.Props.C06
 open SamVerif.HostSet
 
@@ -119,6 +120,61 @@ theorem balancer_shapes :
 example : (List.range 6).map (fun j => rrPick (4 + j) 3) = [2, 0, 1, 2, 0, 1] := by decide
 example : leastConnPick 0 1 [5, 2, 9] = 1 := by decide
 
+/-! ### the life of a relayed connection -/
+
+section conn
+open SamVerif.TcpConn
+
+/-- **With no usable host (or a failed dial) the client connection is closed**, and nothing is
+counted for any host. -/
+theorem no_host_closes_client (pre : List Label) (t t' : T) (h : run {} pre = some t)
+    (usable dialOk : Bool) (hno : ¬ (usable = true ∧ dialOk = true)) (hs : step t (.start usable dialOk) = some t') :
+    t'.phase = .returned ∧ t'.cOpen = false ∧ t'.sOpen = false ∧ t'.count = 0 := by
+  have hi := inv_run pre _ t inv_init h
+  have hi' := inv_step t t' _ hi hs
+  simp only [step] at hs
+  by_cases hp0 : t.phase = .selecting
+  · rw [if_pos hp0, if_neg hno] at hs
+    injection hs with hs
+    have hp : t'.phase = .returned := by rw [← hs]
+    exact ⟨hp, (hi'.closed hp).1, (hi'.closed hp).2, by rw [hi'.counted, hp]; rfl⟩
+  · rw [if_neg hp0] at hs; cases hs
+
+/-- **A connection counts for its host exactly while it is relayed** — after every history. -/
+theorem counted_while_relayed (ls : List Label) (t : T) (h : run {} ls = some t) :
+    t.count = if t.phase = .relaying then 1 else 0 := (inv_run ls _ t inv_init h).counted
+
+/-- **Established connections to a removed host are closed** (and those of a stopping processor):
+once the picked host's removal latch is closed, let the connection's own goroutines run in any
+order — the two copy loops, the watcher, HandleConn's return; peers may do what they like
+before.  Every such schedule has at most `mu t ≤ 4` steps, and when none of them can move any
+more HandleConn has returned, both sockets are closed, the host's count is back and the watcher
+goroutine is gone. -/
+theorem removal_closes_connection (pre : List Label) (t : T) (h : run {} pre = some t)
+    (he : t.phase ≠ .selecting) (hg : t.latch = true ∨ t.quit = true)
+    (ls : List Label) (hint : ∀ l ∈ ls, internal l = true) (t' : T) (hr : run t ls = some t') :
+    ls.length ≤ mu t ∧
+    ((∀ l, internal l = true → step t' l = none) →
+      t'.phase = .returned ∧ t'.cOpen = false ∧ t'.sOpen = false ∧ t'.count = 0 ∧ t'.watcher ≠ .armed) := by
+  have hi := inv_run pre _ t inv_init h
+  obtain ⟨hm, hi', he', hg'⟩ := wind_down ls t t' hi he hg hint hr
+  refine ⟨by omega, ?_⟩
+  intro hstuck
+  have hdone : t'.phase = .returned ∧ t'.watcher ≠ .armed := by
+    apply Classical.byContradiction
+    intro hn
+    obtain ⟨l, hl, hen⟩ := progress t' hi' he' hg' hn
+    rw [hstuck l hl] at hen
+    cases hen
+  exact ⟨hdone.1, (hi'.closed hdone.1).1, (hi'.closed hdone.1).2, by rw [hi'.counted, hdone.1]; rfl, hdone.2⟩
+
+/-- not vacuous: a relayed connection whose host is removed while the client → backend loop has
+already ended; the watcher fires, the other loop breaks, HandleConn returns -/
+example : ∃ t, run {} [.start true true, .peerEnds true, .hostRemoved, .watcherFire, .loopBreaks false, .ret] = some t
+    ∧ t.phase = .returned ∧ t.count = 0 ∧ t.cOpen = false := ⟨_, rfl, by decide⟩
+
+end conn
+
 /-- **The code the model was written against.** -/
 theorem code_matches_model :
     Gen.Relay.handleConn =
@@ -151,3 +207,6 @@ end SamVerif.Props.C06
 #print axioms SamVerif.Props.C06.pick_from_usable
 #print axioms SamVerif.Props.C06.balancer_shapes
 #print axioms SamVerif.Props.C06.code_matches_model
+#print axioms SamVerif.Props.C06.no_host_closes_client
+#print axioms SamVerif.Props.C06.counted_while_relayed
+#print axioms SamVerif.Props.C06.removal_closes_connection
